@@ -172,7 +172,7 @@ def run_case(rng, res, idx):
 
 
 def plan(tier, seed):
-    n = tier_value(tier, 2000, 24000)
+    n = tier_value(tier, 2000, 150000)
     shards = tier_value(tier, 8, 14)
     per = n // shards
     return [dict(first=i * per, count=per, budget_s=tier_value(tier, 45, 420)) for i in range(shards)]
